@@ -231,8 +231,8 @@ def _record_get_odesys(rsys, include_params, kwargs, out):
         pren["feedratio"] = kc.FEEDVAR
         bind["feedratio"] = [73, 1]
         ev.append(dict(ev="Feed", F=[73, 1], cf=cf))
-    ev.append(dict(ev="Build", cfg=dict(builder="get_odesys", incl=bool(include_params), kinds=kinds,
-                                        subs=["none"] * len(kinds), cstr=bool(cstr), comp=False,
+    ev.append(dict(ev="Build", cfg=dict(kc.default_pk_fields(), builder="get_odesys", incl=bool(include_params),
+                                        kinds=kinds, subs=["none"] * len(kinds), cstr=bool(cstr), comp=False,
                                         subvals=[[1, 1]] * len(kinds), aval=[1, 1], tval=[1, 1])))
     odesys, extra = out
     names = list(odesys.names)
@@ -265,7 +265,7 @@ def _record_get_odesys(rsys, include_params, kwargs, out):
         f = [_q(float(x)) for x in odesys.f_cb(0.0, y, p)]
     except Exception:
         f = []
-    ev.append(dict(ev="Result", built=True, names=res_names, params=res_params, poly=tabs, f=f,
+    ev.append(dict(ev="Result", built=True, names=res_names, dep=[], params=res_params, poly=tabs, f=f,
                    rvals=[], hasr=False))
     return ev
 
